@@ -718,14 +718,28 @@ def rfc6979_rules(prog, chk, pid):
             whyo = "bits2octets does not take bits2int(data, bit_length(order))"
         if oko:
             try:
-                for q in (2, 3, 251, 257, (1 << 160) + 7, (1 << 521) - 1):
-                    for zv in (0, 1, q - 1, q, q + 1, 2 * q - 1):
-                        if zv >= 2 * q or zv.bit_length() > q.bit_length():
-                            continue  # bits2int returns at most bit_length(q) bits, so z1 < 2q
-                        got = eval_term(a0, {z1.uid: zv, order_p.uid: q})
-                        if got != zv % q:
-                            oko, whyo = False, "for z1 = %d and order %d the value converted is %d, z1 mod q is %d" % (zv, q, got, zv % q)
-                            raise StopIteration
+                # further quantities the reduction may look at: len(data) and bit_length(order) -- both are given every consistent value (a hash shorter than,
+                # exactly as long as, and longer than the order)
+                data_p = mk("param", fo.params[0])
+                len_ts = [t for t in _subterms(a0) if t.op == "len" and unsnap(t.args[0]) is data_p]
+                bl_ts = [t for t in _subterms(a0) if t.op == "call" and "bit_length" in show(t.args[0], 3) and len(t.args[1]) == 1 and unsnap(t.args[1][0]) is order_p]
+                bl_ts += [t for t in _subterms(a0) if t.op == "call" and isinstance(t.args[0], Term) and t.args[0].op == "meth" and t.args[0].args[1] == "bit_length" and unsnap(t.args[0].args[0]) is order_p]
+                for q in (2, 3, 251, 257, 0xE95E4A5F737059DC60DFC7AD95B3D8139515620F, (1 << 160) + 7, 0xA9FB57DBA1EEA9BC3E660A909D838D718C397AA3B561A6F7901E0E82974856A7, (1 << 521) - 1):
+                    qlen_ = q.bit_length()
+                    qbytes = (qlen_ + 7) // 8
+                    for nbytes in sorted({max(1, qbytes - 1), qbytes, qbytes + 1, qbytes + 16}) if len_ts else (None,):
+                        for zv in (0, 1, q - 1, q, q + 1, 2 * q - 1, (1 << qlen_) - 1):
+                            if zv >= 2 * q or zv.bit_length() > qlen_ or (nbytes is not None and zv.bit_length() > 8 * nbytes):
+                                continue  # bits2int returns at most min(8 * len(data), bit_length(q)) bits, so z1 < 2q
+                            env_ = {z1.uid: zv, order_p.uid: q}
+                            for t_ in len_ts:
+                                env_[t_.uid] = nbytes
+                            for t_ in bl_ts:
+                                env_[t_.uid] = qlen_
+                            got = eval_term(a0, env_)
+                            if got != zv % q:
+                                oko, whyo = False, "for z1 = %#x and order %#x%s the value converted is %#x, z1 mod q is %#x" % (zv, q, (" (%d input bytes)" % nbytes) if nbytes is not None else "", got, zv % q)
+                                raise StopIteration
             except StopIteration:
                 pass
             except NoEval as e_:
